@@ -19,7 +19,7 @@ type Opts struct {
 	KeyFile         string `json:"key_file"`         // "", kR1, kR1p8, kR2, kE1, kE2, kD1, missing, garbage, dir
 	LoadedCert      string `json:"loaded_cert"`      // "", R1, E1, D1
 	LoadedKey       string `json:"loaded_key"`       // "", kR1, kR2, kE1, kE2, kD1 (ed25519), wE1 (foreign signer type)
-	CAFile          string `json:"ca_file"`          // "", A, AB, mixed, garbage, missing, dir
+	CAFile          string `json:"ca_file"`          // "", A, AB, mixed, garbage, missing, dir, bundle:<blocks> (material.go bundleTokens)
 	LoadedCA        string `json:"loaded_ca"`        // "", C
 	Pool            string `json:"pool"`             // "", empty, P, PA
 	ServerName      string `json:"server_name"`      // byte-exact
@@ -85,6 +85,17 @@ func keyIdentity(name string) string {
 
 // certificates held by a CA file; ok=false: the file cannot be read at all
 func caFileRoots(name string) (roots []string, readable bool) {
+	if toks, ok := bundleToks(name); ok {
+		// a bundle trusts every plain CERTIFICATE block it lists, wherever it stands in the file
+		seen := map[string]bool{}
+		for _, t := range toks {
+			if (t == "A" || t == "B") && !seen[t] {
+				seen[t] = true
+				roots = append(roots, t)
+			}
+		}
+		return roots, true
+	}
 	switch name {
 	case "A", "mixed", "lead", "crlf", "trail", "unipath":
 		return []string{"A"}, true
@@ -100,6 +111,51 @@ func caFileRoots(name string) (roots []string, readable bool) {
 		return nil, true
 	}
 	return nil, false // missing, dir
+}
+
+// bundleToks splits the logical name of a generated CA bundle ("bundle:A,P,B") into its blocks.
+func bundleToks(name string) ([]string, bool) {
+	if !strings.HasPrefix(name, "bundle:") {
+		return nil, false
+	}
+	return strings.Split(strings.TrimPrefix(name, "bundle:"), ","), true
+}
+
+// caFileMay: authorities a CA file MAY make trusted: a CERTIFICATE block that carries PEM
+// headers is a certificate to some readers and a foreign block to others; the text is silent.
+func caFileMay(name string) (out []string) {
+	toks, _ := bundleToks(name)
+	for _, t := range toks {
+		if t == "H" {
+			return []string{"B"}
+		}
+	}
+	return nil
+}
+
+// bundleForeign: the bundle holds something besides plain certificate blocks (an error is MAY)
+func bundleForeign(name string) bool {
+	toks, _ := bundleToks(name)
+	for _, t := range toks {
+		if t != "A" && t != "B" {
+			return true
+		}
+	}
+	return false
+}
+
+// bundleCertAfterForeign: a plain certificate block stands after a block that is not one
+func bundleCertAfterForeign(name string) bool {
+	toks, _ := bundleToks(name)
+	foreign := false
+	for _, t := range toks {
+		if t != "A" && t != "B" {
+			foreign = true
+		} else if foreign {
+			return true
+		}
+	}
+	return false
 }
 
 func poolRoots(name string) []string {
@@ -178,6 +234,17 @@ func reference(o Opts) ref {
 	} else {
 		for _, x := range f {
 			r.rootMust[x] = true
+		}
+	}
+	for _, x := range caFileMay(o.CAFile) {
+		if !r.rootMust[x] {
+			r.rootMay[x] = true
+		}
+	}
+	if bundleForeign(o.CAFile) {
+		r.errAllowed = true
+		if r.errWhy == "" {
+			r.errWhy = "CA bundle holds blocks that are not plain certificates"
 		}
 	}
 	if o.CAFile != "" && (!readable || o.CAFile == "garbage" || o.CAFile == "mixed" || o.CAFile == "empty" || oddShape(o.CAFile)) {
